@@ -1055,6 +1055,19 @@ def f(o, n):
     return a, b, c, o.ival, o.size, o.c
 ''')
 
+
+corpus('''
+def f(a, b):
+    def diffmod(x, y, n=256):
+        d0 = abs(x % n - y % n)
+        d1 = n - d0
+        return min(d0, d1)
+    d = diffmod(a, b)
+    e = diffmod(a, b, 16)
+    g = diffmod(y=a, x=b, n=7)
+    return d, e, g
+''')
+
 # ---- input generation by parameter name ----------------------------------------------------------------------------------------
 
 
